@@ -122,6 +122,7 @@ type PL struct {
 	// -k = v1 timestamp timeout at the destination's clock k blocks ahead (nanoseconds); 20+k (v2 only) = one second after code k
 	TimeoutIn []int
 	StepB     time.Duration // block interval of chain B (0 = ksim.BlockStep); a non-integral number of seconds exercises ns->s conversions
+	Payloads  int           // payloads per v2 packet (0 = 1), alternating between the two v2 mock applications
 	Movers    []string      // one-shot state movers: freezeB / expireB (destination client), freezeA / expireA (source client)
 	LatePH    bool          // timeout relays may also claim a proof height one above the client's latest height
 
@@ -142,8 +143,14 @@ func (s *PL) Init(wk *ksim.Worker) *ksim.World {
 	wk.InstallMockObservers()
 	w := wk.Root()
 	w.Ext = &plExt{}
+	// make every identifier differ between the two ends (a dummy client on B, a dummy channel end on A), so that
+	// a handler using the wrong end's identifier cannot go unnoticed: A has client 07-tendermint-0 and channels
+	// channel-1/channel-2, B has client 07-tendermint-1 and channels channel-0/channel-1
+	_, dr := w.CreateClient(1, 0)
+	ksim.MustOK("dummy client on B", dr)
 	l := w.SetupClients(0, 1)
 	w.SetupConnection(l, 0)
+	ksim.MustOK("dummy channel on A", w.Tx(0, channeltypes.NewMsgChannelOpenInit("mock", ibcmock.Version, channeltypes.UNORDERED, []string{l.ConnA}, "mock", ksim.Signer)))
 	chU := w.SetupChannel(l, "mock", "mock", ibcmock.Version, channeltypes.UNORDERED)
 	chO := w.SetupChannel(l, "mock", "mock", ibcmock.Version, channeltypes.ORDERED)
 	w.RegisterCounterparties(l)
@@ -368,11 +375,18 @@ func (s *PL) apply(w *ksim.World, op ksim.Op) ksim.Result {
 				// expires when B's clock reaches `to` blocks after B's current block
 				tsec = uint64((w.CS[1].TimeNs() + int64(to)*int64(s.stepB())) / 1e9)
 			}
-			pl := mockv2.NewMockPayload(mockv2.PortIDA, mockv2.PortIDB)
-			pl.Value = data
-			seq, r := w.SendV2(0, src, tsec, ksim.Signer, pl)
+			var pls []channeltypesv2.Payload
+			for i := 0; i < max(1, s.Payloads); i++ {
+				pl := mockv2.NewMockPayload(mockv2.PortIDA, mockv2.PortIDB)
+				if i%2 == 1 {
+					pl = mockv2.NewMockPayload(mockv2.PortIDB, mockv2.PortIDA)
+				}
+				pl.Value = data
+				pls = append(pls, pl)
+			}
+			seq, r := w.SendV2(0, src, tsec, ksim.Signer, pls...)
 			if r.Class == ksim.OK {
-				e.Pkts = append(e.Pkts, plPkt{Route: route, Seq: seq, Data: string(data), V2: channeltypesv2.NewPacket(seq, src, dst, tsec, pl)})
+				e.Pkts = append(e.Pkts, plPkt{Route: route, Seq: seq, Data: string(data), V2: channeltypesv2.NewPacket(seq, src, dst, tsec, pls...)})
 			}
 			return r
 		}
@@ -596,7 +610,11 @@ func (s *PL) v2Ack(p plPkt) channeltypesv2.Acknowledgement {
 	if p.Data == string(ibcmock.MockFailPacketData) {
 		return channeltypesv2.Acknowledgement{AppAcknowledgements: [][]byte{channeltypesv2.ErrorAcknowledgement[:]}}
 	}
-	return channeltypesv2.Acknowledgement{AppAcknowledgements: [][]byte{mockv2.MockRecvPacketResult.Acknowledgement}}
+	var acks [][]byte
+	for range p.V2.Payloads {
+		acks = append(acks, mockv2.MockRecvPacketResult.Acknowledgement)
+	}
+	return channeltypesv2.Acknowledgement{AppAcknowledgements: acks}
 }
 
 func (s *PL) Step(pre *ksim.World, op ksim.Op, r ksim.Result, post *ksim.World) *ksim.Fail {
